@@ -534,7 +534,31 @@ func (w *world) scanOnce(setState bool) scanObs {
 			return 1
 		}
 		if !s.Forever {
-			obs.Out = classify(w.ctl.RunOnce())
+			// watchdog: a scan that is still running long after every wait it can legitimately take (the prelude's sleeps, a fleet
+			// readiness deadline of a few seconds) is reported as hung (outcome 6); its goroutine is abandoned
+			type res struct {
+				out   int
+				panic string
+			}
+			done := make(chan res, 1)
+			go func() {
+				defer func() {
+					if r := recover(); r != nil {
+						if _, ok := r.(exitSentinel); ok {
+							done <- res{out: 3}
+						} else {
+							done <- res{out: 4, panic: fmt.Sprint(r)}
+						}
+					}
+				}()
+				done <- res{out: classify(w.ctl.RunOnce())}
+			}()
+			select {
+			case r := <-done:
+				obs.Out, obs.Panic = r.out, r.panic
+			case <-time.After(3*slowLimit(s) + 20*time.Second):
+				obs.Out = 6
+			}
 			return
 		}
 		// the main loop: it must return the first error a run returns
